@@ -3,6 +3,8 @@ NOTES = ("All checks are model-based: explicit TLA+ specifications in spec/ chec
          "implementation by replaying TLC behaviours into the real code and validating recorded executions "
          "against trace specifications (see DESIGN.md). Exit 2 = machinery failure.")
 ENGINES = [
+    {"name": "discovery", "path": "harness/discoverycheck.py", "serves_properties": ["C18"],
+     "kind_free_text": "Discovery.tla model checked; real server processes walked and restarted, judged by DiscoveryTrace.tla"},
     {"name": "href", "path": "harness/hrefcheck.py", "serves_properties": ["C16"],
      "kind_free_text": "Href.tla names enumerated by TLC, hrefs dereferenced verbatim on the real server, judged by HrefTrace.tla"},
     {"name": "pathmap", "path": "harness/pathcheck.py", "serves_properties": ["C13"],
@@ -76,6 +78,10 @@ def table(dav):
         "Href.tla defines emission (percent-encode every octet that is not unreserved) and dereferencing of member names over 11 character classes (letter, space, %, #, ?, ;, +, non-ASCII, digits so that escape-like names such as %20 occur); TLC checks the round-trip and injectivity theorems and enumerates the names (all up to length 3 in the thorough tier). For every name, under 3 route prefixes and both front ends, the member is created and every emitting context is exercised (PROPFIND Depth 1 and 0, sync-collection, calendar-query, multiget, POST Location, PROPPATCH / 404 response hrefs); each href is requested verbatim with a raw client and must return the resource it was emitted for; listings must contain every member exactly once and collection hrefs end in '/'. TLC judges the recorded round trips (HrefTrace.tla). Listing exactness along arbitrary write histories is additionally judged in every step of the Dav cluster (C01). Exhaustive over the stated name grammar; claimed as exploration.",
         "TLA+ href round-trip spec enumerated by TLC; every emitted href dereferenced verbatim against the real server; TLC judges the records",
         "Identity of a resource = the UID in the body GET returns; names are single path segments without '/' and without dots other than the extension; harness/compat.py."))
+    checks.append(other("C18", "discovery", "model_checking",
+        "Discovery.tla models the server life cycle (Start with none/--autocreate/--defaults, Stop, user writes) and the discovery walk; TLC checks ReachesAfterDefaults and StartPreserves on it. Every deployment of the grid (2 front ends x 3 route prefixes x 4 principal paths x 9 start sequences; quick: a covering subset) is run for real - `python -m xandikos` and the xandikos.wsgi module behind WellknownRedirector as server processes on loopback - and walked with a raw client using only hrefs the server returned (RFC 3986 resolution): .well-known redirect, current-user-principal, calendar-home-set / addressbook-home-set, Depth 1 listing with resource types; user data is written after the first start and re-read after every restart; a digest of the data directory is taken around every start. TLC judges the recorded life cycles (DiscoveryTrace.tla).",
+        "TLA+ model checking (TLC) of the life-cycle model + trace validation of recorded deployments of the real server processes",
+        "Launchers load harness/compat.py before xandikos; the WSGI deployment is served by wsgiref with a Content-Length limited input stream; loopback networking."))
     na = [{"property_id": p, "reason": "check not built yet in this round; planned in DESIGN.md section 5"}
-          for p in ALL if p not in claimed + ["C04", "C05", "C10", "C11", "C12", "C13", "C16"]]
+          for p in ALL if p not in claimed + ["C04", "C05", "C10", "C11", "C12", "C13", "C16", "C18"]]
     return checks, na
